@@ -14,11 +14,11 @@ func init() {
 }
 
 func checkC08(r *Run) {
-	r.Rule("R1", "the three element loops of the for evaluator (map, slice/array, iterator) have the same body summary: bind key, bind value, evaluate the block once, return on error, unwrap continue, unwrap break and leave after accumulating, append non-nil results in order; no Go continue skips the advance", 3)
-	r.Rule("R2", "element order and keys: slice loop counts i from 0 by 1 below Len() and uses the same i as key and index; iterator loop counts from 0 by 1 per Next and ends at the first nil; map loop visits each key of MapKeys() once and binds MapIndex of that key", 3)
-	r.Rule("R3", "a nil iterable yields (nil, nil); anything that is neither map, slice, array nor Iterator ends in a non-nil error", 2)
-	r.Rule("R4", "break/continue objects carry the output accumulated so far plus the inner object's value, and the block evaluator returns in that iteration", 3)
-	r.Rule("R5", "the parser's in-loop flag is saved on entry, set before anything that can parse a block, and restored by a defer on every exit; never reset to a constant", 2)
+	r.Rule("R1", "the three element loops of the for evaluator (map, slice/array, iterator) have the same body summary: bind key, bind value, evaluate the block once, return on error, unwrap continue, unwrap break and leave after accumulating, append non-nil results in order; no Go continue skips the advance", 1)
+	r.Rule("R2", "element order and keys: slice loop counts i from 0 by 1 below Len() and uses the same i as key and index; iterator loop counts from 0 by 1 per Next and ends at the first nil; map loop visits each key of MapKeys() once and binds MapIndex of that key", 1)
+	r.Rule("R3", "a nil iterable yields (nil, nil); anything that is neither map, slice, array nor Iterator ends in a non-nil error", 1)
+	r.Rule("R4", "break/continue objects carry the output accumulated so far plus the inner object's value, and the block evaluator returns in that iteration", 1)
+	r.Rule("R5", "the parser's in-loop flag is saved on entry, set before anything that can parse a block, and restored by a defer on every exit; never reset to a constant", 1)
 	forLoopsRuleSSA(r)
 	forIterableRule(r)
 	coreBlockRules(r, "R4", "R4")
